@@ -234,6 +234,39 @@ PROPERTIES["C08"] = {
     "technique": "TLA+ cursor model checked by TLC on all shapes; spec-generated expected sequences compared with the real iterators; state-graph walk of all classes",
 }
 
+PROPERTIES["C13"] = {
+    "run": props_algo.c13, "level": "model_checking",
+    "text": "TextFormat.tla transcribes the tokenizer (first two whitespace-delimited tokens, rest of line = label text), the "
+            "two loaders (stoi indices / names numbered by first appearance, grow-to-largest, forced add) and the writer over "
+            "TLA+ strings; TLC checks round trip, comment/whitespace invariance and the name-table property on every file within "
+            "the bounds and prints each file with the expected graph and names; the real writer's output is compared byte for "
+            "byte and the real loaders' results exactly",
+    "note": "bounds: graphs <=3 vertices/<=2-4 edges, files of <=1-3 lines over enumerated spellings; trusted: TLC string "
+            "operators, harness/io_main.cpp",
+    "technique": "TLA+ transcription of tokenizer/loader/writer model checked by TLC; spec-generated files replayed on the real codecs",
+}
+PROPERTIES["C14"] = {
+    "run": props_algo.c14, "level": "model_checking",
+    "text": "BinFormat.tla defines the record layout byte by byte (32-bit little-endian indices + fixed-width little-endian "
+            "label) and the loader as a fold of forced adds; TLC checks length = edges x record size, load(write(G)) resized = "
+            "G, permutation invariance of hand-made files and that the disk image is little-endian for both host byte orders, on "
+            "every shape within bounds and label widths 0,1,2,4,8; the bytes written by the real writer are compared exactly "
+            "with the specification's bytes and the real loader's result with the specification's; unopenable paths must "
+            "raise std::runtime_error in all loaders and writers",
+    "note": "float/double/int32 by equality round trip only; big-endian hosts only in the model",
+    "technique": "byte-level TLA+ format specification model checked by TLC; byte-exact comparison with the real writer/loader",
+}
+PROPERTIES["C15"] = {
+    "run": props_algo.c15, "level": "fault_enumeration",
+    "text": "the binary writer is modelled as a process appending one byte per step, so TLC visits every crash point of every "
+            "file within the bounds and checks that what is on disk loads to exactly the complete records; each such prefix "
+            "is given to the real loader in a forked child (plain and ASan+UBSan builds): it must throw or return exactly "
+            "that graph; text files containing malformed lines are enumerated from a malformed-line alphabet and must yield a "
+            "graph or a std::exception, never a crash, sanitizer report, hang or foreign exception",
+    "note": "bounds as stated in the evidence rule; huge-index inputs are excluded as the property allows",
+    "technique": "TLC-enumerated crash points (byte-by-byte writer process) and malformed files replayed on the real loaders in sandboxed children under ASan/UBSan",
+}
+
 NOT_APPLICABLE = {
     "C20": "compile-/link-time well-formedness of templates and headers: there is no state, transition or observable "
            "behaviour for a TLA+ specification to describe or for a trace to bind (DESIGN.md section 5)",
